@@ -4,6 +4,7 @@ import (
 	"bytes"
 	"context"
 	"errors"
+	"github.com/scrapli/scrapligo/util/verifhook"
 	"io"
 	"regexp"
 	"time"
@@ -43,6 +44,7 @@ func processReadBuf(rb []byte, searchDepth int) []byte {
 
 func (c *Channel) read() {
 	defer func() {
+		verifhook.Point("chan.read.exit")
 		c.readLoopExited = true
 	}()
 
@@ -53,7 +55,9 @@ func (c *Channel) read() {
 		default:
 		}
 
+		verifhook.Point("chan.read.top")
 		b, err := c.t.Read()
+		verifhook.Point("chan.read.after-read")
 		if err != nil {
 			select {
 			case <-c.done:
@@ -77,7 +81,9 @@ func (c *Channel) read() {
 				"encountered error reading from transport during channel read loop. error: %s", err,
 			)
 
+			verifhook.Point("chan.read.errs-send")
 			c.Errs <- err
+			verifhook.Point("chan.read.errs-sent")
 
 			time.Sleep(c.ReadDelay)
 
@@ -116,12 +122,14 @@ func (c *Channel) read() {
 // errors on the Errs channel (these would come from the underlying transport), the error is
 // returned with nil for the byte slice.
 func (c *Channel) Read() ([]byte, error) {
+	verifhook.Spin("chan.Read")
 	select {
 	case err := <-c.Errs:
 		return nil, err
 	default:
 	}
 
+	verifhook.Point("chan.Read.flag")
 	if c.readLoopExited {
 		return nil, util.ErrConnectionError
 	}
@@ -143,6 +151,7 @@ func (c *Channel) Read() ([]byte, error) {
 // much" from the channel causing us to not be able to "find" the prompt or inputs during normal
 // operations. In general, this should probably only be used when connecting to consoles/files.
 func (c *Channel) ReadAll() ([]byte, error) {
+	verifhook.Spin("chan.ReadAll")
 	select {
 	case err := <-c.Errs:
 		return nil, err
